@@ -15,7 +15,7 @@ import t2tie
 from common import Check, load_known, rng, tier
 
 
-from sqltie import DIALECT_CLASSES as CLASSES, has_where_in, has_window  # noqa: E402,F401
+from sqltie import DIALECT_CLASSES as CLASSES, has_group_with_derived, has_where_in, has_window  # noqa: E402,F401
 
 
 def main() -> int:
@@ -71,6 +71,30 @@ def main() -> int:
                 known_hits.setdefault(cls, case)
             else:
                 spec_failures.append(case)
+    # spelling of the JOIN keyword (JOIN / INNER JOIN / LEFT JOIN / LEFT OUTER JOIN, one word per token) with blanks, tabs
+    # and line breaks between all tokens: the legacy analyzer and the dialects must still agree on the tables
+    ws = ["\n", "\t", "  ", " \n ", "\n\n"]
+    oj = astgen.Opts(fun4=True, joins="mixed", noise=lambda i: r.choice(ws) if r.random() < 0.5 else " ")
+    jrecs, jmeta = [], []
+    for d in ["ansi", "mysql", "postgres", "non-validating"]:
+        for i, s in enumerate(stmts):
+            jrecs.append({"sql": astgen.to_sql(s, oj), "dialect": d, "metadata": None, "config": {}})
+            jmeta.append((d, i))
+    jby = defaultdict(dict)
+    for (d, i), rec, x in zip(jmeta, jrecs, t2tie.summaries(jrecs)):
+        jby[i][d] = (x, rec["sql"])
+    import re as _re
+    for i, s in enumerate(stmts):
+        want = spec[i].split("#")[0]
+        for d, (x, sql) in jby[i].items():
+            ck.count()
+            if x.startswith("ERR:InvalidSyntax") or x.startswith("ERR:UnsupportedStatement"):
+                continue
+            if d == "non-validating" and (has_group_with_derived(s) or _re.search(r"union(?! all\b)\s+all\b", sql, _re.I)):
+                continue        # recorded: K-C09-7, K-C07-1
+            if x.split("#")[0] != want:
+                spec_failures.append({"suite": "join-keyword-spelling", "dialect": d, "sql": sql, "tables": x.split("#")[0], "spec": want,
+                                      "detail": "JOIN keyword kinds with blanks / tabs / line breaks between the words"})
     # the tie, per dialect, on a sample (the model must equal the extractors whatever the dialect's trees look like)
     sample = stmts[: (25 if quick else 200)]
     for d in (r.sample(dialects, 8) if quick else dialects):
